@@ -136,7 +136,7 @@ def run_record(js, strategy, options=None, inject_at=None, tmpdir=None, reports=
         files["jsons"] = {x: json.load(open(os.path.join(rdir, x))) for x in names if x.endswith(".json")}
         shutil.rmtree(rdir, ignore_errors=True)
     r = {"strategy": strategy, "options": {k: v for k, v in (options or {}).items()}, "features": feats, "js": js,
-         "raised": raised, "phase": "run" if rec.steps else "init", "reports": reports, "files": files, "inject_at": inject_at, "n_intervals": s.n_intervals, "steps": rec.steps,
+         "raised": raised, "phase": "run" if (rec.steps or js["scenario"].get("n_intervals") == 0) else "init", "reports": reports, "files": files, "inject_at": inject_at, "n_intervals": s.n_intervals, "steps": rec.steps,
          "strat_errors": hook.errors, "stdout_tail": buf.getvalue()[-400:]}
     if raised is None:
         gcs = list(s.components.grid_connectors.keys())
@@ -292,19 +292,25 @@ def pool(seed, tier, strategies=None, n_fast=None, n_slow=None, inject=False, fe
             if st in strategies:
                 recs.append(run_record(js, st, opts))
         if inject:
-            # D6: a zero-length scenario with a grid connector, all reports written
-            js = scen.gen_scenario(rng, n_gc=1, n_veh=1, features={"fixed"}, steps=4, interval=60)
-            js["scenario"]["n_intervals"] = 0
-            if "greedy" in strategies:
-                recs.append(run_record(js, "greedy", {}, reports=True))
-            # D7: peak_load_window with a stationary battery where no peak-load window lies ahead (windows of another year)
+            # D7: peak_load_window with a stationary battery where no peak-load window lies ahead: the scenario starts after the
+            # last window of the only season (the look-ahead for the next window change must stop at the end of the scenario)
             if "peak_load_window" in strategies:
-                js = scen.gen_scenario(rng, n_gc=1, n_veh=1, features={"battery", "fixed"}, steps=6, interval=60)
-                start = datetime.datetime.fromisoformat(js["scenario"]["start_time"])
-                p = os.path.join(tmp, "tw_other_year.json")
-                json.dump({"default_grid_operator": {"all": {"start": "%d-01-01" % (start.year - 3), "end": "%d-12-31" % (start.year - 3),
-                                                              "windows": {lv: [["08:00", "10:00"]] for lv in ("HV", "MV", "LV")}}}}, open(p, "w"))
-                recs.append(run_record(js, "peak_load_window", {"time_windows": p, "ALLOW_NEGATIVE_SOC": True}, time_limit=40))
+                n7 = rng.choice([6, 8])
+                js = {"scenario": {"start_time": "2020-01-31T12:00:00+01:00", "interval": 15, "n_intervals": n7},
+                      "components": {
+                          "vehicle_types": {"t": {"name": "t", "capacity": 50, "charging_curve": [[0, 11], [1, 11]]}},
+                          "vehicles": {"v1": {"vehicle_type": "t", "soc": 0.5, "desired_soc": 0.8, "connected_charging_station": "cs1",
+                                              "estimated_time_of_departure": "2020-01-31T13:30:00+01:00"}},
+                          "grid_connectors": {"GC1": {"max_power": 100, "voltage_level": "MV", "grid_operator": "default_grid_operator",
+                                                      "cost": {"type": "fixed", "value": 0.1}}},
+                          "charging_stations": {"cs1": {"max_power": 11, "parent": "GC1"}},
+                          "batteries": {"BAT1": {"parent": "GC1", "capacity": 20, "soc": 0.5, "charging_curve": [[0, 10], [1, 10]]}},
+                          "photovoltaics": {}},
+                      "events": {"grid_operator_signals": [], "fixed_load": {}, "local_generation": {}, "vehicle_events": []}}
+                p = os.path.join(tmp, "tw_january.json")
+                json.dump({"default_grid_operator": {"january": {"start": "2020-01-01", "end": "2020-01-31",
+                                                                  "windows": {"MV": [["08:00", "09:00"]]}}}}, open(p, "w"))
+                recs.append(run_record(js, "peak_load_window", {"time_windows": p, "ALLOW_NEGATIVE_SOC": True}, time_limit=30))
         for i in range(n_fast):
             # exact rationals grow with every step: long runs only in the thorough tier
             js = scen.gen_scenario(rng, steps=rng.choice([4, 8, 12, 16]) if (tier == "quick" or i % 4) else None)
@@ -628,7 +634,7 @@ SIM_RULE = ("pool of exact runs: random scenarios (1-2 connectors, 1-6 vehicles,
             "with Scenario.run's series on every run; non-trivial = distinct run in which some connector carries load or the run aborts")
 
 
-def sim_run(pid, tier, pred, inject=False, extra_units=(), n_kernel=(600, 6000)):
+def sim_run(pid, tier, pred, inject=False, extra_units=(), n_kernel=(600, 6000), extra=None):
     import kernel
     sd = C.seed()
     RUNLOOP.records = pool(sd, tier, inject=inject)
@@ -652,7 +658,7 @@ def sim_run(pid, tier, pred, inject=False, extra_units=(), n_kernel=(600, 6000))
         old(self, cls, what, inp)
     C.Report.add_violation = add_violation
     try:
-        return corr.standard_run(pid, tier, units, n, n, SIM_TRUSTED, SIM_RULE, search_factor=1)
+        return corr.standard_run(pid, tier, units, n, n, SIM_TRUSTED, SIM_RULE, search_factor=1, extra=extra)
     finally:
         C.Report.add_violation = old
 
